@@ -10,6 +10,7 @@ def run(chk):
     chk.trust("z3 5.1.0")
     wrapper_contracts.wrapper_obligations(chk, "C18", want=("C18", "C06", "C07"))
     wrapper_contracts.client_errors_wrapped(chk, "C18")
+    wrapper_contracts.control_signals_not_exceptions(chk, "C18")
     wrapper_contracts.checkpoint_error_classification(chk, "C18")
     from . import batcher
     batcher.check_consumer(chk, "C18")  # the safety causes of "no outcome at all": every blocked caller is woken when the API fails
